@@ -152,6 +152,24 @@ def decide_equal(a, b, seed=0, trials=6):
                 return True
     except Exception:
         pass
+    # opaque applied functions become independent symbols (sound: they are arbitrary functions);
+    # distinct unevaluated sums cannot be compared numerically -> unknown
+    try:
+        d = sp.simplify(d)
+    except Exception:
+        pass
+    sums = d.atoms(sp.Sum)
+    if len(sums) > 1:
+        return None
+    rep = {}
+    for su in sums:
+        rep[su] = sp.Dummy('sum', positive=True)
+    d = d.xreplace(rep)
+    from sympy.core.function import AppliedUndef
+    rep = {}
+    for ap in sorted(d.atoms(AppliedUndef), key=str):
+        rep[ap] = sp.Dummy(str(ap), positive=True)
+    d = d.xreplace(rep)
     # search for an exact counter-point
     syms = sorted(d.free_symbols, key=lambda s: s.name)
     rnd = random.Random(1234 + seed)
@@ -186,6 +204,9 @@ def decide_equal(a, b, seed=0, trials=6):
 
 def counterpoint(a, b, seed=0):
     d = a - b
+    from sympy.core.function import AppliedUndef
+    if d.atoms(AppliedUndef) or d.atoms(sp.Sum):
+        return None
     syms = sorted(d.free_symbols, key=lambda s: s.name)
     rnd = random.Random(99 + seed)
     for _ in range(20):
